@@ -32,5 +32,5 @@ for d in sorted(os.listdir(f'{V}/seeded')):
     if not os.path.isdir(p): continue
     meta = json.load(open(f'{p}/meta.json'))
     det = json.load(open(f'{p}/detection.json')) if os.path.exists(f'{p}/detection.json') else {'status': 'not run'}
-    rows.append(f"| {d} | {meta.get('summary','')[:160].replace('|','/')} | {det['status']} |")
+    rows.append(f"| {d} | {meta.get('summary','')[:160].replace('|','/')} | {det['status']}{(' — ' + meta['lead_note'].replace('|','/')) if meta.get('lead_note') else ''} |")
 open(f'{V}/seeded/MATRIX.md', 'w').write('# Seeded changes (written by independent agents that saw only the property text) × detection\n\n| id | change | ./check result |\n|---|---|---|\n' + '\n'.join(rows) + '\n')
